@@ -74,12 +74,13 @@ def parse_kani(out):
     elif "VERIFICATION:- FAILED" in out:
         status = "FAILURE"
     failed = []
-    for m in re.finditer(r"Check \d+: (.+)\n\s+- Status: (FAILURE|UNDETERMINED|ERROR)\n\s+- Description: \"(.*?)\"\n\s+- Location: (.*)", out):
-        failed.append({"check": m.group(1), "status": m.group(2), "description": m.group(3), "location": m.group(4).strip()[:200]})
+    for m in re.finditer(r"Check \d+: (.+)\n\s+- Status: (FAILURE|UNDETERMINED|ERROR)\n\s+- Description: \"((?:.|\n)*?)\"\n\s+- Location: (.*)", out):
+        # (a long assert!() expression is printed over several lines: the description may contain newlines)
+        failed.append({"check": m.group(1), "status": m.group(2), "description": " ".join(m.group(3).split()), "location": m.group(4).strip()[:200]})
     # terse "Failed Checks:" lines
     for m in re.finditer(r"^Failed Checks: (.*)$", out, re.M):
         d = m.group(1).strip()
-        if not any(f["description"] == d for f in failed):
+        if not any(f["description"] == d or f["description"].startswith(d) for f in failed):
             failed.append({"check": "", "status": "FAILURE", "description": d, "location": ""})
     cov = (0, 0)
     m = re.search(r"\*\* (\d+) of (\d+) cover properties satisfied", out)
